@@ -28,6 +28,7 @@ type Profile struct {
 	MapNShare   int
 	UnobsWrites bool // allow writes to unobserved vars from inside a pass
 	Cycles      bool // AddInput may close a cycle
+	Wide        bool // MapN nodes with 65..150 inputs (past the edge index threshold)
 	Memo        int  // share of binds that are BindMemoized (out of 100)
 	WPurge      int  // weight of cache Purge/Clear operations
 }
@@ -152,6 +153,9 @@ func (g *Gen) construct() (Op, bool) {
 		return Op{K: "NewCutoff", Cut: g.cut(), A: g.pickBiased(nodes)}, true
 	case k < g.P.WBind+g.P.Cutoffs+g.P.MapNShare:
 		n := g.R.Range(0, 4)
+		if g.P.Wide && g.R.Chance(1, 2) {
+			n = g.R.Range(60, 150)
+		}
 		ins := make([]int, n)
 		for i := range ins {
 			ins[i] = g.pick(nodes)
@@ -311,6 +315,7 @@ func sortInts(xs []int) {
 // RunRandom generates and executes one history.
 func RunRandom(r *hx.Rand, p Profile) (*Exec, *Monitor) {
 	e := NewExec(p.MaxHeight)
+	e.Sorted = p.Wide
 	m := NewMonitor(e)
 	g := &Gen{R: r, P: p, E: e}
 	for i := 0; i < p.Ops; i++ {
@@ -456,5 +461,56 @@ func MemoKeyHistories(maxLen int, r *hx.Rand) [][]Op {
 		}
 	}
 	rec(nil)
+	return out
+}
+
+// DagHistories enumerates edge insertions into all small DAGs (property C18, second half):
+// k MapN nodes without inputs, some observed, then every sequence of up to maxLen
+// AddInput/RemoveInput operations between them (cycles included: they must be rejected).
+func DagHistories(k, maxLen int) [][]Op {
+	var prefix []Op
+	for i := 0; i < k; i++ {
+		prefix = append(prefix, Op{K: "NewMapN", FN: "Sum"})
+	}
+	prefix = append(prefix, Op{K: "NewVar", V: 1}) // n_k: a leaf every node may read
+	for i := 0; i < k; i++ {
+		prefix = append(prefix, Op{K: "Observe", A: i})
+	}
+	var alpha []Op
+	for a := 0; a < k; a++ {
+		for b := 0; b <= k; b++ {
+			if a != b {
+				alpha = append(alpha, Op{K: "AddInput", A: a, B: b})
+			}
+		}
+	}
+	var out [][]Op
+	var rec func(seq []Op, edges map[[2]int]bool)
+	rec = func(seq []Op, edges map[[2]int]bool) {
+		if len(seq) > 0 {
+			h := append(append([]Op(nil), prefix...), seq...)
+			h = append(h, Op{K: "Stabilize"})
+			out = append(out, h)
+		}
+		if len(seq) == maxLen {
+			return
+		}
+		for _, o := range alpha {
+			e := [2]int{o.A, o.B}
+			next := map[[2]int]bool{}
+			for k2 := range edges {
+				next[k2] = true
+			}
+			op := o
+			if edges[e] {
+				op = Op{K: "RemoveInput", A: o.A, B: o.B}
+				delete(next, e)
+			} else {
+				next[e] = true
+			}
+			rec(append(seq[:len(seq):len(seq)], op), next)
+		}
+	}
+	rec(nil, map[[2]int]bool{})
 	return out
 }
